@@ -45,6 +45,9 @@ class RefHooks(EditHooks):
             return Sym(("aslist", vkey(sm.expr(f.value, st))))
         if fname == "iter" and len(args) == 1 and not kwargs:
             return args[0]
+        # a deep copy has the value of its argument; who may be written through whom is the alias rules' business (C17-R1, C19-R3)
+        if fname in ("copy.deepcopy", "deepcopy") and len(args) == 1 and not kwargs:
+            return args[0]
         # dict(zip(D.values(), D.keys())): the inverse map of D
         if fname == "dict" and len(node.args) == 1 and isinstance(node.args[0], ast.Call) and isinstance(node.args[0].func, ast.Name) and node.args[0].func.id == "zip" \
                 and len(node.args[0].args) == 2:
@@ -157,6 +160,24 @@ def compare(model, roles_, code_fn, ref_fn, rep, rule, construct, where, what, f
         return lits, rest
     cs = [(lf, split(lf), signature(lf)) for lf in cl]
     rs = [(lf, split(lf), signature(lf)) for lf in rl]
+
+    def unread(x):
+        if isinstance(x, Sym):
+            if isinstance(x.key, tuple) and x.key and x.key[0] in ("comp", "lambda"):
+                return x.key[0]
+            return unread(x.key)
+        if isinstance(x, (tuple, list)):
+            for y in x:
+                u = unread(y)
+                if u:
+                    return u
+        if isinstance(x, ListV):
+            return unread(x.items)
+        return None
+    for lf, _, sig in cs:
+        u = unread(sig)
+        if u:
+            raise AnalysisError("%s: the code contains a %s the summary engine does not read" % (what, {"comp": "comprehension", "lambda": "lambda"}[u]))
 
     def together(a, b):
         la, ra = a
